@@ -486,6 +486,27 @@ func runC16(c *Ctx) {
 		})
 	})
 	c.Min("C16-R6", 14)
+
+	c.Rule("C16-R7", "a failed bloom-bits retrieval fails the query: the error is published before the session is closed and returned by the consumer", func() {
+		// indexedLogs learns that matching ended from the closed match channel and then asks the session for its
+		// error; Close() is what closes that channel, so an error stored after Close is read as nil and the query
+		// returns a truncated result without error
+		mx := c.Fn("core/bloombits:(*MatcherSession).Multiplex")
+		c.MustBefore("C16-R7", mx, `^MatcherSession\.Close$`, 1, []LitReq{
+			{Name: "Multiplex stores the retrieval error before it closes the session", Re: `^called:MatcherSession#0\.err\.Store\(.*\.Error\)$`},
+		})
+		il := c.Fn("aqua/filters:(*Filter).indexedLogs")
+		fi := c.Facts(il)
+		nErr := 0
+		for _, rs := range fi.AllReturns() {
+			t := fi.tr.term(rs.State, rs.Ret.Results[len(rs.Ret.Results)-1], 0)
+			if strings.HasSuffix(t, ".Error()") && strings.Contains(t, ".matcher.Start(") {
+				nErr++
+			}
+		}
+		c.Ob("C16-R7", "indexedLogs returns the session's error when the match channel is closed", c.FnPos(il), nErr >= 1, fmt.Sprintf("%d returns hand back session.Error()", nErr))
+	})
+	c.Min("C16-R7", 2)
 }
 
 func regexpQuote(s string) string {
